@@ -180,19 +180,20 @@ theorem uqPre_jk (s : St) (name : String) (b a : List String) (nt : Tag) :
 
 /-! ## after the start of a job -/
 
-def Core (t t' : Tag) : Prop :=
+def Core (t t' : Tag) : Prop :=  -- CHANGED (gen)
   t'.mat = t.mat ∧ t'.unc = t.unc ∧ t'.defn = t.defn ∧ t'.mfeat = t.mfeat ∧ t'.sfeat = t.sfeat ∧
-  t'.mainT = t.mainT ∧ t'.subT = t.subT
+  t'.mainT = t.mainT ∧ t'.subT = t.subT ∧ t'.gen = t.gen
 
 structure Post (s s' : St) : Prop where
   jp : jp s' = jp s
   tags : ∀ n t, sget s.tags n = some t → ∃ t', sget s'.tags n = some t' ∧ Core t t'
 
-theorem Core.refl (t : Tag) : Core t t := ⟨rfl, rfl, rfl, rfl, rfl, rfl, rfl⟩
+theorem Core.refl (t : Tag) : Core t t := ⟨rfl, rfl, rfl, rfl, rfl, rfl, rfl, rfl⟩
 theorem Core.trans {a b c : Tag} (h1 : Core a b) (h2 : Core b c) : Core a c := by
-  obtain ⟨a1, a2, a3, a4, a5, a6, a7⟩ := h1
-  obtain ⟨b1, b2, b3, b4, b5, b6, b7⟩ := h2
-  exact ⟨b1.trans a1, b2.trans a2, b3.trans a3, b4.trans a4, b5.trans a5, b6.trans a6, b7.trans a7⟩
+  obtain ⟨a1, a2, a3, a4, a5, a6, a7, a8⟩ := h1
+  obtain ⟨b1, b2, b3, b4, b5, b6, b7, b8⟩ := h2
+  exact ⟨b1.trans a1, b2.trans a2, b3.trans a3, b4.trans a4, b5.trans a5, b6.trans a6, b7.trans a7,
+    b8.trans a8⟩
 theorem Post.refl (s : St) : Post s s := ⟨rfl, fun _ t h => ⟨t, h, Core.refl t⟩⟩
 theorem Post.trans {a b c : St} (h1 : Post a b) (h2 : Post b c) : Post a c :=
   ⟨h2.jp.trans h1.jp, fun n t h => by
@@ -216,7 +217,7 @@ theorem addRefBy_post (s : St) (a b : String) : Post s (addRefBy s a b) := by
     by_cases e : a = n
     · subst e
       rw [ht] at h0; cases h0
-      exact ⟨_, if_pos rfl, ⟨rfl, rfl, rfl, rfl, rfl, rfl, rfl⟩⟩
+      exact ⟨_, if_pos rfl, ⟨rfl, rfl, rfl, rfl, rfl, rfl, rfl, rfl⟩⟩
     · exact ⟨t0, by rw [if_neg e]; exact h0, Core.refl _⟩
   · exact fun n t h => ⟨t, h, Core.refl t⟩
 
@@ -233,15 +234,16 @@ theorem started_of (X fin : St) (c : Option String) (hw : Sorted X.tags) (hj : X
     (h : fin.jTag = some (jn, snap, held)) :
     ∃ ot, sget fin.tags jn = some ot ∧ ot.mat = snap.mat ∧ ot.unc = snap.unc ∧
       ot.defn = snap.defn ∧ ot.mfeat = snap.mfeat ∧ ot.sfeat = snap.sfeat ∧ ot.mainT = snap.mainT ∧
-      ot.subT = snap.subT ∧ fin.upd = [] ∧ fin.rst = [] ∧ fin.add = [] := by
+      ot.subT = snap.subT ∧ fin.upd = [] ∧ fin.rst = [] ∧ fin.add = [] ∧
+      ot.gen = snap.gen := by  -- CHANGED (gen)
   have hjp := hp.jp
   simp only [jp, Prod.mk.injEq] at hjp
   obtain ⟨e1, _, e3, e4, e5⟩ := hjp
   rw [e1] at h
   obtain ⟨g, u1, u2, u3⟩ := startTagging_job X c hw ht hj jn snap held h
   rw [← (startTagging_same X c).1] at g
-  obtain ⟨ot, h1, c1, c2, c3, c4, c5, c6, c7⟩ := hp.tags jn snap g
-  exact ⟨ot, h1, c1, c2, c3, c4, c5, c6, c7, e3.trans u1, e4.trans u2, e5.trans u3⟩
+  obtain ⟨ot, h1, c1, c2, c3, c4, c5, c6, c7, c8⟩ := hp.tags jn snap g
+  exact ⟨ot, h1, c1, c2, c3, c4, c5, c6, c7, e3.trans u1, e4.trans u2, e5.trans u3, c8⟩
 
 /-! ## `step`, event by event -/
 
@@ -306,7 +308,8 @@ theorem step_addTag_dec (s : St) (name color defn : String) (f : Facts) (st : St
   split
   · refine .plain (JK.of_jp ?_)
     rw [foldl_jp _ (fun s r => addRefBy_jp s r name), setTag_jp]
-  · exact .tagging (setTag s name _) (JK.of_jp rfl) (sorted_sins _ _ _)
+    rfl
+  · exact .tagging (setTag { s with ngen := s.ngen + 1 } name _) (JK.of_jp rfl) (sorted_sins _ _ _)
       (foldl_post _ (fun s r => addRefBy_post s r name) _ _)
 
 theorem step_updQuery_dec (s : St) (name defn : String) (f : Facts) (st : Started) :
@@ -437,7 +440,7 @@ theorem tagDone_started (s : St) (n : String) (r : List Nat) (st : Started) (jn 
       ot.defn = snap.defn ∧ ot.mfeat = snap.mfeat ∧ ot.sfeat = snap.sfeat ∧ ot.mainT = snap.mainT ∧
       ot.subT = snap.subT ∧
       (step s (.tagDone n r) st).1.upd = [] ∧ (step s (.tagDone n r) st).1.rst = [] ∧
-      (step s (.tagDone n r) st).1.add = [] := by
+      (step s (.tagDone n r) st).1.add = [] ∧ ot.gen = snap.gen := by  -- CHANGED (gen)
   cases hq : s.jTag with
   | none =>
     rw [step_tagDone_eq, hq] at hj'
@@ -466,7 +469,8 @@ theorem job_started (s : St) (e : Ev) (st : Started) (jn : String) (snap : Tag) 
     ∃ ot, sget (step s e st).1.tags jn = some ot ∧ ot.mat = snap.mat ∧ ot.unc = snap.unc ∧
       ot.defn = snap.defn ∧ ot.mfeat = snap.mfeat ∧ ot.sfeat = snap.sfeat ∧ ot.mainT = snap.mainT ∧
       ot.subT = snap.subT ∧
-      (step s e st).1.upd = [] ∧ (step s e st).1.rst = [] ∧ (step s e st).1.add = [] := by
+      (step s e st).1.upd = [] ∧ (step s e st).1.rst = [] ∧ (step s e st).1.add = [] ∧
+      ot.gen = snap.gen := by  -- CHANGED (gen)
   by_cases hne : ∀ n r, e ≠ .tagDone n r
   · have ht : s.tag = false := by
       rcases h with h | ⟨n, r, h⟩
